@@ -795,7 +795,7 @@ class Glob(Generic[AnyStr]):
             return True
 
         unique = False
-        if (path.lower() if not self.case_sensitive else path) not in self.seen:
+        if path not in self.seen:
             self.seen.add(path)
             unique = True
         return unique
